@@ -2,8 +2,25 @@
 import lightworks as lw
 from lightworks.emulator import ModeMismatchError, PhotonNumberError
 
-VALUES = [0, 1, 2, -1, 1.0, True, 1.5]
+try:
+    from crosshair.core import deep_realize
+    from crosshair.tracers import NoTracing, is_tracing
+except ImportError:
+    deep_realize = None
+
+
+def _untraced(fn, *args):
+    """CrossHair chooses the integers; the emulator (numba-compiled permanent) runs on
+    the realised values - traced runs of it returned wrong values that do not replay."""
+    if deep_realize is not None and is_tracing():
+        args = deep_realize(args)
+        with NoTracing():
+            return fn(*args)
+    return fn(*args)
+
+
 REJECT = (ModeMismatchError, TypeError, ValueError, PhotonNumberError)
+BAD = [1.0, True, 1.5, "1", None]
 
 
 def _circuit(herald: bool):
@@ -15,37 +32,74 @@ def _circuit(herald: bool):
     return c
 
 
-def _well_formed(vals, n_modes):
-    return len(vals) == n_modes and all(type(v) is int and v >= 0 for v in vals)
-
-
-def _validation(herald: bool, n_in: int, i0: int, i1: int, i2: int, use_out: bool, n_out: int, o0: int, o1: int, o2: int) -> bool:
+def _ints(herald: bool, n_in: int, i0: int, i1: int, i2: int) -> bool:
     """
-    pre: 0 <= n_in <= 3 and 0 <= n_out <= 3
-    pre: all(0 <= x <= 6 for x in (i0, i1, i2, o0, o1, o2))
+    pre: 1 <= n_in <= 3 and -1 <= i0 <= 1 and -1 <= i1 <= 1 and i2 == 0
     post: _
     """
-    c = _circuit(herald)
-    ins = [VALUES[i] for i in (i0, i1, i2)][:n_in]
-    outs = [VALUES[i] for i in (o0, o1, o2)][:n_out]
-    ok = _well_formed(ins, 2)
-    if use_out:
-        ok = ok and _well_formed(outs, 2) and sum(ins) == sum(outs)
-    sim = lw.emulator.Simulator(c)
+    return _untraced(_ints_body, herald, n_in, i0, i1, i2)
+
+
+def _ints_body(herald, n_in, i0, i1, i2):
+    ins = [i0, i1, i2][:n_in]
+    ok = n_in == 2 and i0 >= 0 and i1 >= 0
     try:
-        res = sim.simulate(lw.State(ins), [lw.State(outs)] if use_out else None)
+        res = lw.emulator.Simulator(_circuit(herald)).simulate(lw.State(ins))
     except REJECT:
         return not ok
-    if not ok:
-        return False
-    return res.array.shape[0] == 1 and (res.array.shape[1] == 1 if use_out else res.array.shape[1] >= 1)
+    return ok and res.array.shape[0] == 1 and all(o.n_photons == i0 + i1 for o in res.outputs)
+
+
+def _outputs(i0: int, i1: int, n_out: int, o0: int, o1: int, o2: int) -> bool:
+    """
+    pre: i0 == 1 and i1 == 0 and 1 <= n_out <= 3 and -1 <= o0 <= 2 and -1 <= o1 <= 1 and o2 == 0
+    post: _
+    """
+    return _untraced(_outputs_body, False, i0, i1, n_out, o0, o1, o2)
+
+
+def _outputs_body(herald, i0, i1, n_out, o0, o1, o2):
+    outs = [o0, o1, o2][:n_out]
+    ok = n_out == 2 and o0 >= 0 and o1 >= 0 and o0 + o1 == i0 + i1
+    try:
+        res = lw.emulator.Simulator(_circuit(herald)).simulate(lw.State([i0, i1]), [lw.State(outs)])
+    except REJECT:
+        return not ok
+    return ok and res.array.shape == (1, 1)
+
+
+def _types(herald: bool, pos: int, kind: int, in_output: bool) -> bool:
+    """
+    pre: 0 <= pos <= 1 and 0 <= kind <= 4
+    post: _
+    """
+    bad = None
+    for k in range(5):
+        if kind == k:
+            bad = BAD[k]
+    vals = [1, 0]
+    for p in range(2):
+        if pos == p:
+            vals[p] = bad
+    try:
+        if in_output:
+            lw.emulator.Simulator(_circuit(herald)).simulate(lw.State([1, 0]), [lw.State(vals)])
+        else:
+            lw.emulator.Simulator(_circuit(herald)).simulate(lw.State(vals))
+    except REJECT:
+        return True
+    return False
 
 
 def _two_inputs_photon_numbers(a0: int, a1: int, b0: int, b1: int) -> bool:
     """
-    pre: all(0 <= x <= 2 for x in (a0, a1, b0, b1))
+    pre: all(0 <= x <= 1 for x in (a0, a1, b0, b1))
     post: _
     """
+    return _untraced(_two_body, a0, a1, b0, b1)
+
+
+def _two_body(a0, a1, b0, b1):
     c = _circuit(False)
     try:
         lw.emulator.Simulator(c).simulate([lw.State([a0, a1]), lw.State([b0, b1])])
